@@ -19,6 +19,7 @@ import (
 )
 
 type rxGroup struct {
+	lang     []string // finite language of the group (nil: not derived)
 	min, max int  // max<0: unbounded
 	alpha    *[256]bool // nil: unknown
 	always   bool // participates in every match
@@ -64,7 +65,7 @@ func analyseRegex(pat string) *rxInfo {
 		switch r.Op {
 		case syntax.OpCapture:
 			mn, mx := lenRange(r.Sub[0])
-			ri.groups[r.Cap] = rxGroup{min: mn, max: mx, alpha: alphaOf(r.Sub[0]), always: always}
+			ri.groups[r.Cap] = rxGroup{min: mn, max: mx, alpha: alphaOf(r.Sub[0]), always: always, lang: finiteLang(r.Sub[0])}
 			walk(r.Sub[0], always)
 		case syntax.OpStar, syntax.OpQuest, syntax.OpRepeat, syntax.OpPlus:
 			opt := r.Op == syntax.OpStar || r.Op == syntax.OpQuest || (r.Op == syntax.OpRepeat && r.Min == 0)
@@ -81,6 +82,72 @@ func analyseRegex(pat string) *rxInfo {
 	}
 	walk(re, true)
 	return ri
+}
+
+// finiteLang: the set of strings a sub-expression can match, when small and finite (else nil).
+func finiteLang(r *syntax.Regexp) []string {
+	const cap_ = 64
+	switch r.Op {
+	case syntax.OpEmptyMatch:
+		return []string{""}
+	case syntax.OpLiteral:
+		if r.Flags&syntax.FoldCase != 0 {
+			return nil
+		}
+		return []string{string(r.Rune)}
+	case syntax.OpCharClass:
+		var out []string
+		for i := 0; i+1 < len(r.Rune); i += 2 {
+			for c := r.Rune[i]; c <= r.Rune[i+1]; c++ {
+				out = append(out, string(c))
+				if len(out) > cap_ {
+					return nil
+				}
+			}
+		}
+		return out
+	case syntax.OpCapture:
+		return finiteLang(r.Sub[0])
+	case syntax.OpQuest:
+		l := finiteLang(r.Sub[0])
+		if l == nil {
+			return nil
+		}
+		return append([]string{""}, l...)
+	case syntax.OpAlternate:
+		var out []string
+		for _, s := range r.Sub {
+			l := finiteLang(s)
+			if l == nil {
+				return nil
+			}
+			out = append(out, l...)
+		}
+		if len(out) > cap_ {
+			return nil
+		}
+		return out
+	case syntax.OpConcat:
+		out := []string{""}
+		for _, s := range r.Sub {
+			l := finiteLang(s)
+			if l == nil {
+				return nil
+			}
+			var nx []string
+			for _, a := range out {
+				for _, b := range l {
+					nx = append(nx, a+b)
+				}
+			}
+			if len(nx) > cap_ {
+				return nil
+			}
+			out = nx
+		}
+		return out
+	}
+	return nil
 }
 
 func lenRange(r *syntax.Regexp) (int, int) {
@@ -394,6 +461,21 @@ func (g *Gen) rxFindAxioms(re, rs string, ri *rxInfo) {
 			pos = append(pos, rng)
 		} else {
 			pos = append(pos, or("(= "+l+" 0)", rng))
+		}
+		if gr.lang != nil {
+			var alts []Term
+			seen := map[string]bool{}
+			if !gr.always {
+				alts = append(alts, eq(el(k), g.lit("")))
+				seen[""] = true
+			}
+			for _, w := range gr.lang {
+				if !seen[w] {
+					seen[w] = true
+					alts = append(alts, eq(el(k), g.lit(w)))
+				}
+			}
+			pos = append(pos, or(alts...))
 		}
 	}
 	facts = append(facts, implies("(not (nil_L_Str "+m+"))", and(pos...)))
